@@ -85,4 +85,699 @@ Proof.
   rewrite <- mem_In. destruct (mem x l); split; intros; try congruence; tauto.
 Qed.
 
+(** * slot invariant *)
+Definition accepted {A E} (r : outcome A E) : bool := match r with Ok _ => true | _ => false end.
+
+Record QAct (q : queue) (log : list frame) : Prop := {
+  qa_nodup : NoDup (q_mask q);
+  qa_lt : forall i, In i (q_mask q) -> i < MAX_FRAMES;
+  qa_w : forall w, q_fws q = Some w -> MIN_PAYLOAD_SIZE <= w;
+  qa_mid : forall j, In j (q_mask q) -> j <> MAX_FRAMES - 1 ->
+       exists w, q_fws q = Some w /\
+         forall i, j * w <= i -> i < j * w + w -> PCov log (q_buf q) i;
+  qa_fps : forall s, q_fps q = Some s -> In (MAX_FRAMES - 1) (q_mask q);
+  qa_last : In (MAX_FRAMES - 1) (q_mask q) ->
+       exists l s lf, q_lfo q = Some l /\ q_fps q = Some s /\ s <= MAX_PACKET_SIZE /\
+         In lf log /\ is_last (f_hdr lf) = true /\ h_fo (f_hdr lf) = l /\ l + flen lf = s /\
+         forall i, l <= i -> i < s -> PCov log (q_buf q) i;
+  qa_exp : forall e, q_exp q = Some e -> exists w l s,
+       q_fws q = Some w /\ q_lfo q = Some l /\ q_fps q = Some s /\
+       l mod w = 0 /\ 1 <= s - l /\ s - l <= w /\ l <= s /\ e = l / w + 1 }.
+
+Record QInv (q : queue) (log : list frame) : Prop := {
+  qi_len : length (q_buf q) = N.to_nat MAX_PACKET_SIZE;
+  qi_so : forall f, In f log -> h_so (f_hdr f) = q_so q;
+  qi_act : q_idle q = false -> QAct q log }.
+
+Lemma consts : MAX_FRAMES = 256 /\ MAX_PACKET_SIZE = 65535 /\ MIN_PAYLOAD_SIZE = 256 /\
+               BITMASK_ENTRY_BITS = 128 /\ BITMASK_ENTRY_COUNT = 2.
+Proof. repeat split; reflexivity. Qed.
+
+Lemma QInv_idle q log : QInv q log -> QInv (set_idle q) log.
+Proof.
+  intros [H1 H2 _]. split; cbn; auto. discriminate.
+Qed.
+
+(** a freshly initialised slot *)
+Lemma QInv_init q log f : QInv q log -> QInv (queue_init q f) [].
+Proof.
+  intros [H1 _ _]. split; cbn; auto; [intros ? []|].
+  intros _. split; cbn; try (intros; discriminate); try (intros ? []); try (intros []).
+  constructor.
+Qed.
+
+Lemma QInv_new dflt : QInv (queue_new dflt) [].
+Proof.
+  split; cbn; [apply repeat_length | intros ? [] | discriminate].
+Qed.
+
+(** * storing a frame re-establishes the slot invariant *)
+Definition ExpOK (q : queue) (fws' fps' exp' lfo' : option N) : Prop :=
+  exp' = q_exp q \/
+  (q_exp q = None /\ exists w l s, fws' = Some w /\ lfo' = Some l /\ fps' = Some s /\
+     l mod w = 0 /\ 1 <= s - l /\ s - l <= w /\ l <= s /\ exp' = Some (l / w + 1)).
+
+Definition MidCase (q : queue) (f : frame) (idx : N) (fws' fps' lfo' : option N) : Prop :=
+  is_last (f_hdr f) = false /\ idx < MAX_FRAMES - 1 /\ h_fo (f_hdr f) = idx * flen f /\
+  MIN_PAYLOAD_SIZE <= flen f /\ (q_fws q = None \/ q_fws q = Some (flen f)) /\
+  fws' = Some (flen f) /\ fps' = q_fps q /\ lfo' = q_lfo q.
+
+Definition LastCase (q : queue) (f : frame) (idx : N) (fws' fps' lfo' : option N) : Prop :=
+  is_last (f_hdr f) = true /\ idx = MAX_FRAMES - 1 /\ ~ In (MAX_FRAMES - 1) (q_mask q) /\
+  fws' = q_fws q /\ fps' = Some (h_fo (f_hdr f) + flen f) /\ lfo' = Some (h_fo (f_hdr f)).
+
+Lemma QAct_store q log f idx fws' fps' exp' lfo' nxt :
+  QAct q log ->
+  length (q_buf q) = N.to_nat MAX_PACKET_SIZE ->
+  h_fo (f_hdr f) + flen f <= MAX_PACKET_SIZE ->
+  ~ In idx (q_mask q) ->
+  MidCase q f idx fws' fps' lfo' \/ LastCase q f idx fws' fps' lfo' ->
+  ExpOK q fws' fps' exp' lfo' ->
+  QAct (mkQ (q_so q) nxt (write_buf (q_buf q) (h_fo (f_hdr f)) (f_frag f))
+            (idx :: q_mask q) fws' fps' exp' lfo' false) (f :: log).
+Proof.
+  intros A Hlen Hfit Hnin Hcase Hexp.
+  destruct consts as (CF & CP & CM & _).
+  assert (Hl : (N.to_nat (h_fo (f_hdr f)) + length (f_frag f) <= length (q_buf q))%nat)
+    by (unfold flen in *; lia).
+  destruct A as [a1 a2 a3 a4 a5 a6 a7].
+  assert (Hfps_none : ~ In (MAX_FRAMES - 1) (q_mask q) -> q_fps q = None /\ q_exp q = None).
+  { intros Hn. assert (q_fps q = None) as E.
+    { destruct (q_fps q) as [s|] eqn:E; auto. exfalso. eauto. }
+    split; auto. destruct (q_exp q) as [e|] eqn:E2; auto.
+    destruct (a7 e eq_refl) as (w & l & s & _ & _ & E3 & _). congruence. }
+  split; cbn [q_mask q_fws q_fps q_exp q_lfo q_buf q_so q_idle].
+  - constructor; auto.
+  - intros i [<-|Hi]; auto. destruct Hcase as [(_ & H & _)|(_ & -> & _)]; lia.
+  - intros w Hw. destruct Hcase as [(_ & _ & _ & Hmin & _ & -> & _)|(_ & _ & _ & -> & _)].
+    + inversion Hw; subst; auto.
+    + auto.
+  - intros j [<-|Hj] Hne.
+    + destruct Hcase as [(_ & _ & Hfo & _ & _ & -> & _)|(_ & -> & _)]; [|congruence].
+      eexists; split; [reflexivity|]. intros i H1 H2. apply PCov_new; auto; lia.
+    + destruct (a4 j Hj Hne) as (w & Hw & Hc).
+      exists w. split.
+      * destruct Hcase as [(_ & _ & _ & _ & [Hn|Hs] & -> & _)|(_ & _ & _ & -> & _)]; congruence.
+      * intros i H1 H2. apply PCov_write; auto.
+  - intros s Hs. destruct Hcase as [(_ & _ & _ & _ & _ & _ & -> & _)|(_ & -> & _)].
+    + right. eauto.
+    + left. reflexivity.
+  - intros [Heq|Hin].
+    + destruct Hcase as [(_ & Hlt & _)|(Hlast & _ & _ & _ & -> & ->)]; [lia|].
+      exists (h_fo (f_hdr f)), (h_fo (f_hdr f) + flen f), f.
+      repeat split; auto using in_eq. intros i H1 H2. apply PCov_new; auto.
+    + destruct Hcase as [(_ & _ & _ & _ & _ & _ & -> & ->)|(_ & -> & Hn' & _)]; [|tauto].
+      destruct (a6 Hin) as (l & s & lf & E1 & E2 & E3 & E4 & E5 & E6 & E7 & E8).
+      exists l, s, lf. repeat split; auto using in_cons.
+      intros i H1 H2. apply PCov_write; auto.
+  - intros e He. destruct Hexp as [->|(_ & w & l & s & -> & -> & -> & H1 & H2 & H3 & H4 & ->)].
+    + destruct (a7 e He) as (w & l & s & E1 & E2 & E3 & E4).
+      destruct Hcase as [(_ & _ & _ & _ & [Hn|Hs] & -> & -> & ->)|(_ & -> & _)].
+      * congruence.
+      * exists w, l, s. rewrite <- Hs, E1. repeat split; tauto.
+      * destruct (Hfps_none Hnin). congruence.
+    + inversion He; subst. exists w, l, s. repeat split; auto.
+Qed.
+
+(** * completion: exactly the expected frames cover the whole packet *)
+Lemma div_lt_bound l w : MIN_PAYLOAD_SIZE <= w -> l <= MAX_PACKET_SIZE -> l / w <= MAX_FRAMES - 1.
+Proof.
+  destruct consts as (CF & CP & CM & _). rewrite CF, CP, CM. intros Hw Hl.
+  transitivity (l / 256).
+  - apply N.div_le_compat_l. lia.
+  - change (256 - 1) with (65535 / 256). apply N.div_le_mono; lia.
+Qed.
+
+Lemma exp_no_panic q log e :
+  QAct q log -> q_exp q = Some e -> received_exactly_panics (q_mask q) e = false.
+Proof.
+  intros A He. destruct (qa_exp _ _ A e He) as (w & l & s & E1 & E2 & E3 & E4 & E5 & E6 & E7 & ->).
+  unfold received_exactly_panics.
+  destruct (mem (MAX_FRAMES - 1) (q_mask q)) eqn:Hm; [|rewrite andb_false_r; reflexivity].
+  apply mem_In in Hm. destruct (qa_last _ _ A Hm) as (l' & s' & lf & F1 & F2 & F3 & _).
+  assert (l' = l) by congruence. assert (s' = s) by congruence. subst.
+  pose proof (qa_w _ _ A w E1).
+  pose proof (div_lt_bound l w). destruct consts as (CF & _).
+  assert (l <= MAX_PACKET_SIZE) by lia.
+  replace (MAX_FRAMES <? l / w + 1 - 1) with false; [apply andb_false_r|].
+  symmetry. apply N.ltb_ge. lia.
+Qed.
+
+Lemma complete_cov q log e :
+  QAct q log -> q_exp q = Some e -> received_exactly (q_mask q) e = true ->
+  exists s lf, q_fps q = Some s /\ s <= MAX_PACKET_SIZE /\ In lf log /\
+    is_last (f_hdr lf) = true /\ h_fo (f_hdr lf) + flen lf = s /\
+    forall i, i < s -> PCov log (q_buf q) i.
+Proof.
+  intros A He Hr.
+  destruct (qa_exp _ _ A e He) as (w & l & s & E1 & E2 & E3 & E4 & E5 & E6 & E7 & ->).
+  unfold received_exactly in Hr. apply andb_prop in Hr. destruct Hr as [Hr Hall].
+  apply andb_prop in Hr. destruct Hr as [_ Hm]. apply mem_In in Hm.
+  destruct (qa_last _ _ A Hm) as (l' & s' & lf & F1 & F2 & F3 & F4 & F5 & F6 & F7 & F8).
+  assert (l' = l) by congruence. assert (s' = s) by congruence. subst l' s'.
+  exists s, lf. repeat split; auto; [congruence|].
+  intros i Hi. destruct (N.ltb_spec i l) as [Hlt|Hge]; [|apply F8; lia].
+  pose proof (qa_w _ _ A w E1) as Hw. destruct consts as (CF & CP & CM & _).
+  assert (Hw0 : w <> 0) by lia.
+  set (j := i / w).
+  assert (Hjl : j < l / w).
+  { subst j. apply N.div_lt_upper_bound; auto.
+    rewrite (N.div_mod l w Hw0) in Hlt. rewrite E4 in Hlt. lia. }
+  rewrite forallb_forall in Hall.
+  assert (Hj : In j (q_mask q)).
+  { apply mem_In. replace j with (N.of_nat (N.to_nat j)) by lia. apply Hall.
+    apply in_seq. lia. }
+  assert (Hne : j <> MAX_FRAMES - 1).
+  { assert (l <= MAX_PACKET_SIZE) as Hl by lia. pose proof (div_lt_bound l w Hw Hl). lia. }
+  destruct (qa_mid _ _ A j Hj Hne) as (w' & Ew & Hc).
+  assert (w' = w) by congruence. subst w'.
+  apply Hc; subst j.
+  - rewrite N.mul_comm. apply N.mul_div_le; auto.
+  - pose proof (N.div_mod i w Hw0). pose proof (N.mod_lt i w Hw0). lia.
+Qed.
+
+(** * one call of ingest_frame *)
+Definition Post (q : queue) (log : list frame) (f : frame) (q' : queue) (r : res B) : Prop :=
+  QInv q' (if accepted r then f :: log else log) /\ q_so q' = q_so q /\ is_panic r = false /\
+  (accepted r = true -> q_idle q = false) /\
+  (forall so p, r = Ok (Some (so, p)) ->
+     so = q_so q /\ q_idle q' = true /\
+     exists s lf, p = firstn (N.to_nat s) (q_buf q') /\ s <= MAX_PACKET_SIZE /\
+       In lf (f :: log) /\ is_last (f_hdr lf) = true /\ h_fo (f_hdr lf) + flen lf = s /\
+       forall i, i < s -> PCov (f :: log) (q_buf q') i).
+
+Lemma QAct_nostore q log f idx fws' fps' exp' lfo' nxt :
+  QAct q log -> In idx (q_mask q) ->
+  MidCase q f idx fws' fps' lfo' -> ExpOK q fws' fps' exp' lfo' ->
+  QAct (mkQ (q_so q) nxt (q_buf q) (q_mask q) fws' fps' exp' lfo' false) log.
+Proof.
+  intros A Hin (_ & Hlt & _ & Hmin & Hfw & -> & -> & ->) Hexp.
+  destruct A as [a1 a2 a3 a4 a5 a6 a7].
+  assert (Hne : idx <> MAX_FRAMES - 1) by lia.
+  destruct (a4 idx Hin Hne) as (w & Ew & _).
+  assert (Efw : q_fws q = Some (flen f)) by (destruct Hfw; congruence).
+  split; cbn [q_mask q_fws q_fps q_exp q_lfo q_buf q_so q_idle]; auto.
+  - intros w' Hw'. inversion Hw'; subst; auto.
+  - intros j Hj Hn. rewrite <- Efw. auto.
+  - intros e He. destruct Hexp as [->|(_ & w1 & l & s & E1 & -> & -> & H1 & H2 & H3 & H4 & ->)].
+    + rewrite <- Efw. auto.
+    + inversion He; subst. exists w1, l, s. repeat split; auto.
+Qed.
+
+Lemma store_spec q log f idx fws' fps' exp' lfo' q' r :
+  QInv q log -> q_idle q = false -> h_so (f_hdr f) = q_so q ->
+  h_fo (f_hdr f) + flen f <= MAX_PACKET_SIZE ->
+  MidCase q f idx fws' fps' lfo' \/ LastCase q f idx fws' fps' lfo' ->
+  ExpOK q fws' fps' exp' lfo' ->
+  ingest_store (mkQ (q_so q) (q_next q) (q_buf q) (q_mask q) fws' fps' exp' lfo' false) f idx
+    = (q', r) ->
+  Post q log f q' r.
+Proof.
+  intros [I1 I2 I3] Hidle Hso Hfit Hcase Hexp.
+  specialize (I3 Hidle).
+  destruct consts as (CF & CP & CM & CB & CC).
+  assert (Hidx : idx < MAX_FRAMES).
+  { destruct Hcase as [(_ & H & _)|(_ & -> & _)]; lia. }
+  unfold ingest_store. cbn [q_mask q_fws q_fps q_exp q_lfo q_buf q_so q_idle q_next].
+  replace (BITMASK_ENTRY_COUNT <=? idx / BITMASK_ENTRY_BITS) with false
+    by (symmetry; apply N.leb_gt; rewrite CB, CC; apply N.div_lt_upper_bound; lia).
+  destruct (mem idx (q_mask q)) eqn:Hmem.
+  { (* duplicate *)
+    intros E. inversion E; subst q' r; clear E. apply mem_In in Hmem.
+    destruct Hcase as [Hm|(_ & -> & Hn & _)]; [|tauto].
+    unfold Post. cbn [accepted is_panic q_so].
+    refine (conj _ (conj eq_refl (conj eq_refl (conj _ _)))); try discriminate.
+    split; cbn [q_buf q_so q_idle]; auto.
+    intros _. eapply QAct_nostore; eauto. }
+  apply mem_false in Hmem.
+  replace (N.of_nat (length (q_buf q)) <? h_fo (f_hdr f) + flen f) with false
+    by (symmetry; apply N.ltb_ge; lia).
+  assert (Hmod : flen f mod 65536 = flen f) by (apply N.mod_small; lia).
+  rewrite Hmod.
+  replace (65535 <? h_fo (f_hdr f) + flen f) with false by (symmetry; apply N.ltb_ge; lia).
+  set (nxt := h_fo (f_hdr f) + flen f).
+  pose proof (QAct_store q log f idx fws' fps' exp' lfo' nxt I3 I1 Hfit Hmem Hcase Hexp) as A3.
+  set (q3 := mkQ (q_so q) nxt (write_buf (q_buf q) (h_fo (f_hdr f)) (f_frag f))
+                 (idx :: q_mask q) fws' fps' exp' lfo' false) in *.
+  assert (Hlen3 : length (q_buf q3) = N.to_nat MAX_PACKET_SIZE).
+  { subst q3; cbn [q_buf]. rewrite write_buf_length; auto. unfold flen in *; lia. }
+  assert (Hso3 : forall g, In g (f :: log) -> h_so (f_hdr g) = q_so q).
+  { intros g [<-|Hg]; auto. }
+  assert (Hnone : forall qx, qx = q3 -> Post q log f qx (Ok None)).
+  { intros qx ->. unfold Post. cbn [accepted is_panic].
+    refine (conj _ (conj eq_refl (conj eq_refl (conj (fun _ => Hidle) _)))); try discriminate.
+    split; auto. }
+  destruct exp' as [e|]; [|intros E; inversion E; subst; apply Hnone; reflexivity].
+  pose proof (exp_no_panic q3 (f :: log) e A3 eq_refl) as Hnp.
+  unfold q3 in Hnp; cbn [q_mask] in Hnp; rewrite Hnp; clear Hnp.
+  destruct (received_exactly (idx :: q_mask q) e) eqn:Hre;
+    [|intros E; inversion E; subst; apply Hnone; reflexivity].
+  destruct (complete_cov q3 (f :: log) e A3 eq_refl Hre) as (s & lf & E1 & E2 & E3 & E4 & E5 & E6).
+  cbn [q_fps q3] in E1. subst fps'.
+  replace (N.of_nat (length (write_buf (q_buf q) (h_fo (f_hdr f)) (f_frag f))) <? s) with false.
+  2:{ symmetry; apply N.ltb_ge. change (write_buf _ _ _) with (q_buf q3). lia. }
+  intros E; inversion E; subst q' r; clear E.
+  unfold Post. cbn [accepted is_panic set_idle q_so q_buf q_idle].
+  refine (conj _ (conj eq_refl (conj eq_refl (conj (fun _ => Hidle) _)))).
+  - split; cbn [q_buf q_so q_idle]; auto. discriminate.
+  - intros so p E. inversion E; subst so p; clear E.
+    split; [reflexivity|]. split; [reflexivity|].
+    exists s, lf. unfold read_buf. repeat split; auto.
+Qed.
+
+Lemma div_ceil_last l s w :
+  w <> 0 -> l mod w = 0 -> 1 <= s - l -> s - l <= w -> l <= s ->
+  (s + w - 1) / w = l / w + 1.
+Proof.
+  intros Hw Hm H1 H2 H3.
+  pose proof (N.div_mod l w Hw) as Hl. rewrite Hm in Hl.
+  symmetry. apply (N.div_unique _ _ _ (s - l - 1)); lia.
+Qed.
+
+Lemma Post_err_same q log f e : QInv q log -> Post q log f q (Err e).
+Proof.
+  intros I. unfold Post. cbn [accepted is_panic].
+  refine (conj I (conj eq_refl (conj eq_refl (conj _ _)))); discriminate.
+Qed.
+
+Lemma Post_err_idle q log f e q1 :
+  QInv q log -> q_buf q1 = q_buf q -> q_so q1 = q_so q -> Post q log f (set_idle q1) (Err e).
+Proof.
+  intros [I1 I2 _] Hb Hs. unfold Post. cbn [accepted is_panic set_idle q_so].
+  refine (conj _ (conj Hs (conj eq_refl (conj _ _)))); try discriminate.
+  split; cbn [set_idle q_buf q_so q_idle]; try congruence. intros g Hg. rewrite Hs. auto.
+Qed.
+
+Lemma ingest_spec q log f q' r :
+  QInv q log -> h_so (f_hdr f) = q_so q -> ingest_frame q f = (q', r) -> Post q log f q' r.
+Proof.
+  intros I Hso. unfold ingest_frame.
+  destruct (q_idle q) eqn:Hidle.
+  { intros E; inversion E; subst. apply Post_err_same; auto. }
+  destruct (MAX_PACKET_SIZE <? h_fo (f_hdr f) + flen f) eqn:Hoob.
+  { intros E; inversion E; subst. apply Post_err_idle; auto. }
+  apply N.ltb_ge in Hoob.
+  pose proof (qi_act _ _ I Hidle) as A.
+  destruct consts as (CF & CP & CM & CB & CC).
+  unfold ingest_classify.
+  destruct (is_last (f_hdr f)) eqn:Hlast.
+  - (* last frame *)
+    replace (BITMASK_ENTRY_COUNT <=? (MAX_FRAMES - 1) / BITMASK_ENTRY_BITS) with false
+      by (rewrite CF, CB, CC; reflexivity).
+    destruct (mem (MAX_FRAMES - 1) (q_mask q)) eqn:Hm.
+    { intros E; inversion E; subst. apply Post_err_same; auto. }
+    apply mem_false in Hm.
+    replace (MAX_PACKET_SIZE <? h_fo (f_hdr f) + flen f) with false by (symmetry; apply N.ltb_ge; lia).
+    assert (Hfn : q_fps q = None).
+    { destruct (q_fps q) as [s|] eqn:E; auto. exfalso. eapply Hm, qa_fps; eauto. }
+    assert (Hen : q_exp q = None).
+    { destruct (q_exp q) as [e|] eqn:E; auto.
+      destruct (qa_exp _ _ A e E) as (w & l & s & _ & _ & E3 & _). congruence. }
+    unfold ingest_expect. cbn [q_mask q_fws q_fps q_exp q_lfo q_buf q_so q_idle q_next].
+    rewrite Hen.
+    assert (Hcase : forall fws', fws' = q_fws q ->
+              LastCase q f (MAX_FRAMES - 1) fws' (Some (h_fo (f_hdr f) + flen f)) (Some (h_fo (f_hdr f)))).
+    { intros ? ->. repeat split; auto. }
+    destruct (q_fws q) as [w|] eqn:Hw.
+    + pose proof (qa_w _ _ A w Hw) as Hwm.
+      replace (w =? 0) with false by (symmetry; apply N.eqb_neq; lia).
+      destruct (negb (h_fo (f_hdr f) mod w =? 0)) eqn:Hal.
+      { intros E; inversion E; subst. apply Post_err_idle; auto. }
+      apply negb_false_iff, N.eqb_eq in Hal.
+      replace (h_fo (f_hdr f) + flen f <? h_fo (f_hdr f)) with false by (symmetry; apply N.ltb_ge; lia).
+      destruct ((h_fo (f_hdr f) + flen f - h_fo (f_hdr f) =? 0) || (w <? h_fo (f_hdr f) + flen f - h_fo (f_hdr f))) eqn:Hll.
+      { intros E; inversion E; subst. apply Post_err_idle; auto. }
+      apply orb_false_iff in Hll. destruct Hll as [Hl1 Hl2].
+      apply N.eqb_neq in Hl1. apply N.ltb_ge in Hl2.
+      cbn [q_mask q_fws q_fps q_exp q_lfo q_buf q_so q_idle q_next]. rewrite ?Hidle.
+      intros E. rewrite (div_ceil_last (h_fo (f_hdr f))) in E by lia.
+      refine (store_spec q log f _ _ _ _ _ q' r I Hidle Hso Hoob (or_intror (Hcase _ eq_refl)) _ E).
+      right. split; auto. exists w, (h_fo (f_hdr f)), (h_fo (f_hdr f) + flen f).
+      repeat split; auto; lia.
+    + rewrite ?Hidle. intros E.
+      refine (store_spec q log f _ _ _ _ _ q' r I Hidle Hso Hoob (or_intror (Hcase _ eq_refl)) _ E).
+      left. symmetry; exact Hen.
+  - (* middle frame *)
+    destruct (match q_fws q with Some w => negb (w =? flen f) | None => false end) eqn:Hinc.
+    { intros E; inversion E; subst. apply Post_err_idle; auto. }
+    assert (Hfw : q_fws q = None \/ q_fws q = Some (flen f)).
+    { destruct (q_fws q) as [w|]; auto. apply negb_false_iff, N.eqb_eq in Hinc. subst; auto. }
+    destruct (negb (is_multiple_of (h_fo (f_hdr f)) (flen f mod 65536))) eqn:Hal.
+    { intros E; inversion E; subst. apply Post_err_idle; auto. }
+    destruct (flen f <? MIN_PAYLOAD_SIZE) eqn:Hsm.
+    { intros E; inversion E; subst. apply Post_err_idle; auto. }
+    apply N.ltb_ge in Hsm.
+    replace (flen f =? 0) with false by (symmetry; apply N.eqb_neq; lia).
+    destruct (MAX_FRAMES - 1 <=? h_fo (f_hdr f) / flen f) eqn:Hix.
+    { intros E; inversion E; subst. apply Post_err_idle; auto. }
+    apply N.leb_gt in Hix.
+    apply negb_false_iff in Hal. unfold is_multiple_of in Hal.
+    rewrite N.mod_small in Hal by lia.
+    replace (flen f =? 0) with false in Hal by (symmetry; apply N.eqb_neq; lia).
+    apply N.eqb_eq in Hal.
+    assert (Hfo : h_fo (f_hdr f) = h_fo (f_hdr f) / flen f * flen f).
+    { pose proof (N.div_mod (h_fo (f_hdr f)) (flen f)). lia. }
+    assert (Hcase : MidCase q f (h_fo (f_hdr f) / flen f) (Some (flen f)) (q_fps q) (q_lfo q)).
+    { repeat split; auto. }
+    unfold ingest_expect. cbn [q_mask q_fws q_fps q_exp q_lfo q_buf q_so q_idle q_next].
+    destruct (q_fps q) as [s|] eqn:Hs;
+      [|rewrite ?Hidle; intros E;
+       refine (store_spec q log f _ _ _ _ _ q' r I Hidle Hso Hoob (or_introl Hcase) _ E); left; congruence].
+    destruct (q_lfo q) as [l|] eqn:Hl;
+      [|rewrite ?Hidle; intros E;
+       refine (store_spec q log f _ _ _ _ _ q' r I Hidle Hso Hoob (or_introl Hcase) _ E); left; congruence].
+    destruct (q_exp q) as [e|] eqn:He;
+      [rewrite ?Hidle; intros E;
+       refine (store_spec q log f _ _ _ _ _ q' r I Hidle Hso Hoob (or_introl Hcase) _ E); left; congruence|].
+    replace (flen f =? 0) with false by (symmetry; apply N.eqb_neq; lia).
+    destruct (negb (l mod flen f =? 0)) eqn:Hal2.
+    { intros E; inversion E; subst. apply Post_err_idle; auto. }
+    apply negb_false_iff, N.eqb_eq in Hal2.
+    assert (Hin : In (MAX_FRAMES - 1) (q_mask q)) by (eapply qa_fps; eauto).
+    destruct (qa_last _ _ A Hin) as (l' & s' & lf & F1 & F2 & F3 & F4 & F5 & F6 & F7 & F8).
+    assert (l' = l) by congruence. assert (s' = s) by congruence. subst l' s'.
+    replace (s <? l) with false by (symmetry; apply N.ltb_ge; lia).
+    destruct ((s - l =? 0) || (flen f <? s - l)) eqn:Hll.
+    { intros E; inversion E; subst. apply Post_err_idle; auto. }
+    apply orb_false_iff in Hll. destruct Hll as [Hl1 Hl2].
+    apply N.eqb_neq in Hl1. apply N.ltb_ge in Hl2.
+    cbn [q_mask q_fws q_fps q_exp q_lfo q_buf q_so q_idle q_next]. rewrite ?Hidle.
+    intros E. rewrite (div_ceil_last l) in E by lia.
+    refine (store_spec q log f _ _ _ _ _ q' r I Hidle Hso Hoob (or_introl Hcase) _ E).
+    right. split; auto. exists (flen f), l, s.
+    repeat split; auto; lia.
+Qed.
+
+(** * the defragmenter: slot selection and ghost logs *)
+Lemma scan_inl (qs : list queue) i so lo li idle k :
+  scan qs i so lo li idle = inl k ->
+  exists q, nth_error qs (k - i) = Some q /\ q_so q = so /\ (i <= k)%nat.
+Proof.
+  revert i lo li idle. induction qs as [|q qs IH]; intros i lo li idle; cbn [scan]; [discriminate|].
+  destruct (q_so q =? so) eqn:E.
+  - intros H; inversion H; subst. exists q. rewrite Nat.sub_diag. apply N.eqb_eq in E. auto.
+  - destruct (q_so q <? lo); intros H; apply IH in H; destruct H as (q0 & H1 & H2 & H3);
+      exists q0; (split; [|split; [auto|lia]]);
+      replace (k - i)%nat with (S (k - S i)) by lia; exact H1.
+Qed.
+
+Lemma scan_inr (qs : list queue) i so lo li idle lo' li' idle' :
+  scan qs i so lo li idle = inr (lo', li', idle') ->
+  (li' = li \/ (i <= li' < i + length qs)%nat) /\
+  (idle' = idle \/ exists j, idle' = Some j /\ (i <= j < i + length qs)%nat).
+Proof.
+  revert i lo li idle. induction qs as [|q qs IH]; intros i lo li idle; cbn [scan].
+  - intros H; inversion H; subst; auto.
+  - destruct (q_so q =? so); [discriminate|].
+    destruct (q_so q <? lo); intros H; apply IH in H; destruct H as [[H1|H1] [H2|(j & H2 & H3)]];
+      cbn [length]; (split; [first [left; assumption | right; lia] |]);
+      try (right; exists j; split; [assumption|lia]);
+      (destruct (q_idle q); [right; exists i; split; [assumption|lia] | left; assumption]).
+Qed.
+
+Lemma select_queue_range (qs : list queue) f i inited :
+  qs <> [] -> select_queue qs f = Some (i, inited) -> (i < length qs)%nat.
+Proof.
+  intros Hne. unfold select_queue.
+  destruct (scan qs 0 (h_so (f_hdr f)) U64_MAX 0%nat None) as [k|[[lo li] idle]] eqn:E.
+  - intros H; inversion H; subst. apply scan_inl in E. destruct E as (q & H1 & _).
+    rewrite Nat.sub_0_r in H1. apply nth_error_Some. congruence.
+  - apply scan_inr in E. destruct E as [Hli Hidle].
+    assert (0 < length qs)%nat by (destruct qs; [congruence|cbn; lia]).
+    destruct idle as [j|].
+    + intros H'; inversion H'; subst. destruct Hidle as [?|(j' & Hj & ?)]; [discriminate|].
+      inversion Hj; subst; lia.
+    + destruct (h_so (f_hdr f) <? lo); [discriminate|]. intros H'; inversion H'; subst.
+      destruct Hli as [->|?]; lia.
+Qed.
+
+Lemma select_queue_so (qs : list queue) f i q :
+  select_queue qs f = Some (i, false) -> nth_error qs i = Some q -> q_so q = h_so (f_hdr f).
+Proof.
+  unfold select_queue.
+  destruct (scan qs 0 (h_so (f_hdr f)) U64_MAX 0%nat None) as [k|[[lo li] idle]] eqn:E.
+  - intros H; inversion H; subst. apply scan_inl in E. destruct E as (q0 & H1 & H2 & _).
+    rewrite Nat.sub_0_r in H1. congruence.
+  - destruct idle; [discriminate|]. destruct (_ <? _); discriminate.
+Qed.
+
+Lemma set_nth_length {A} (l : list A) i a : length (set_nth l i a) = length l.
+Proof. revert i; induction l; intros [|i]; cbn; auto. Qed.
+
+Lemma nth_error_set_nth {A} (l : list A) i j a :
+  nth_error (set_nth l i a) j =
+  if Nat.eqb i j then (if Nat.ltb i (length l) then Some a else None) else nth_error l j.
+Proof.
+  revert i j; induction l as [|x l IH]; intros i j.
+  - cbn [set_nth length]. destruct (Nat.eqb i j); destruct j; reflexivity.
+  - destruct i as [|i]; destruct j as [|j]; cbn [set_nth nth_error length]; auto.
+    rewrite IH. change (Nat.eqb (S i) (S j)) with (Nat.eqb i j).
+    change (Nat.ltb (S i) (S (length l))) with (Nat.ltb i (length l)). reflexivity.
+Qed.
+
+(** ghost logs: one per slot, reset on initialisation, extended by every accepted frame *)
+Definition step_logs (logs : list (list frame)) (ev : event) (r : res B) (f : frame)
+  : list (list frame) :=
+  match ev with
+  | Some (i, inited) =>
+    set_nth logs i ((if accepted r then [f] else []) ++ (if inited then [] else nth i logs []))
+  | None => logs
+  end.
+
+Definition DInv (qs : list queue) (logs : list (list frame)) : Prop :=
+  length logs = length qs /\
+  forall i q, nth_error qs i = Some q -> QInv q (nth i logs []).
+
+(** what an emission guarantees: [p] is made of the bytes of frames of the log [lg] *)
+Definition Emitted (lg : list frame) (so : N) (p : list B) : Prop :=
+  (forall g, In g lg -> h_so (f_hdr g) = so) /\
+  (exists lf, In lf lg /\ is_last (f_hdr lf) = true /\
+              N.of_nat (length p) = h_fo (f_hdr lf) + flen lf) /\
+  forall j, j < N.of_nat (length p) ->
+    exists g, In g lg /\ h_fo (f_hdr g) <= j /\ j < h_fo (f_hdr g) + flen g /\
+              nth_error p (N.to_nat j) = nth_error (f_frag g) (N.to_nat (j - h_fo (f_hdr g))).
+
+Lemma recv_frame_spec qs logs f qs' r ev :
+  DInv qs logs -> qs <> [] -> recv_frame qs f = (qs', r, ev) ->
+  DInv qs' (step_logs logs ev r f) /\ qs' <> [] /\ is_panic r = false /\
+  forall so p, r = Ok (Some (so, p)) ->
+    so = h_so (f_hdr f) /\
+    match ev with
+    | None => is_last (f_hdr f) = true /\ h_fo (f_hdr f) = 0 /\ p = f_frag f
+    | Some (i, _) => Emitted (nth i (step_logs logs ev r f) []) so p
+    end.
+Proof.
+  intros [DL DQ] Hne. unfold recv_frame.
+  destruct (is_last (f_hdr f) && (h_fo (f_hdr f) =? 0)) eqn:Hfast.
+  { intros E; inversion E; subst. cbn [step_logs is_panic].
+    apply andb_prop in Hfast. destruct Hfast as [F1 F2]. apply N.eqb_eq in F2.
+    split; [split; assumption|]. split; [assumption|]. split; [reflexivity|].
+    intros so p Hr. inversion Hr; subst. auto. }
+  destruct (select_queue qs f) as [[i inited]|] eqn:Hsel.
+  2:{ intros E; inversion E; subst. cbn [step_logs is_panic].
+      split; [split; assumption|]. split; [assumption|]. split; [reflexivity|]. discriminate. }
+  pose proof (select_queue_range qs f i inited Hne Hsel) as Hi.
+  destruct (nth_error qs i) as [q|] eqn:Hq; [|apply nth_error_None in Hq; lia].
+  set (q0 := if inited then queue_init q f else q).
+  set (log0 := if inited then [] else nth i logs []).
+  assert (I0 : QInv q0 log0).
+  { subst q0 log0. destruct inited; [eapply QInv_init|]; eauto. }
+  assert (Hso0 : h_so (f_hdr f) = q_so q0).
+  { subst q0. destruct inited; [reflexivity|]. symmetry. eapply select_queue_so; eauto. }
+  destruct (ingest_frame q0 f) as [q1 r1] eqn:Hing.
+  pose proof (ingest_spec q0 log0 f q1 r1 I0 Hso0 Hing) as (P1 & P2 & P3 & P4 & P5).
+  intros E; inversion E; subst qs' r ev; clear E. cbn [step_logs].
+  fold log0.
+  assert (Hlog : (if accepted r1 then [f] else []) ++ log0 = if accepted r1 then f :: log0 else log0)
+    by (destruct (accepted r1); reflexivity).
+  rewrite Hlog.
+  split; [|split; [|split; [exact P3|]]].
+  - split; [rewrite !set_nth_length; exact DL|].
+    intros k qk Hk. rewrite nth_error_set_nth in Hk.
+    destruct (Nat.eqb_spec i k) as [->|Hik].
+    + destruct (Nat.ltb_spec k (length qs)); [|lia]. inversion Hk; subst qk.
+      erewrite nth_error_nth; [exact P1|].
+      rewrite nth_error_set_nth, Nat.eqb_refl.
+      destruct (Nat.ltb_spec k (length logs)); [reflexivity|lia].
+    + assert (nth k (set_nth logs i (if accepted r1 then f :: log0 else log0)) [] = nth k logs []) as ->.
+      { destruct (nth_error logs k) as [lk|] eqn:Hlk.
+        - erewrite nth_error_nth; [|rewrite nth_error_set_nth; destruct (Nat.eqb_spec i k); [lia|exact Hlk]].
+          symmetry. apply nth_error_nth. exact Hlk.
+        - rewrite !nth_overflow; auto; [|rewrite set_nth_length]; apply nth_error_None; auto. }
+      apply DQ; auto.
+  - intros Hnil. apply (f_equal (@length _)) in Hnil. rewrite set_nth_length in Hnil.
+    destruct qs; [congruence|discriminate].
+  - intros so p Hr. destruct (P5 so p Hr) as (S1 & S2 & s & lf & T1 & T2 & T3 & T4 & T5 & T6).
+    split; [congruence|].
+    subst r1. cbn [accepted] in *.
+    erewrite nth_error_nth;
+      [|rewrite nth_error_set_nth, Nat.eqb_refl; destruct (Nat.ltb_spec i (length logs)); [reflexivity|lia]].
+    destruct P1 as [L1 L2 _]. destruct consts as (_ & CP & _).
+    assert (Hlp : N.of_nat (length p) = s).
+    { subst p. rewrite firstn_length. lia. }
+    split; [|split].
+    + intros g Hg. rewrite (L2 g Hg). congruence.
+    + exists lf. rewrite Hlp. auto.
+    + rewrite Hlp. intros j Hj. destruct (T6 j Hj) as (g & G1 & G2 & G3 & G4).
+      exists g. repeat split; auto. rewrite <- G4. subst p. apply nth_error_firstn. lia.
+Qed.
+
+(** * whole histories *)
+Fixpoint grun (qs : list queue) (logs : list (list frame)) (fs : list frame)
+  : list (res B * event * list (list frame)) :=
+  match fs with
+  | [] => []
+  | f :: rest =>
+    let '(qs', r, ev) := recv_frame qs f in
+    let logs' := step_logs logs ev r f in
+    (r, ev, logs') :: grun qs' logs' rest
+  end.
+
+Definition GoodStep (f : frame) (x : res B * event * list (list frame)) : Prop :=
+  let '(r, ev, logs') := x in
+  is_panic r = false /\
+  forall so p, r = Ok (Some (so, p)) ->
+    so = h_so (f_hdr f) /\
+    match ev with
+    | None => is_last (f_hdr f) = true /\ h_fo (f_hdr f) = 0 /\ p = f_frag f
+    | Some (i, _) => Emitted (nth i logs' []) so p
+    end.
+
+Lemma grun_good qs logs fs :
+  DInv qs logs -> qs <> [] -> Forall2 GoodStep fs (grun qs logs fs).
+Proof.
+  revert qs logs; induction fs as [|f fs IH]; intros qs logs D Hne; cbn [grun]; [constructor|].
+  destruct (recv_frame qs f) as [[qs' r] ev] eqn:E.
+  destruct (recv_frame_spec qs logs f qs' r ev D Hne E) as (D' & Hne' & Hp & Hem).
+  constructor; [|apply IH; auto]. split; auto.
+Qed.
+
+Lemma DInv_new dflt n : DInv (defrag_new dflt n) (repeat [] n).
+Proof.
+  split; [unfold defrag_new; rewrite !repeat_length; reflexivity|].
+  intros i q Hq. unfold defrag_new in Hq.
+  assert (q = queue_new dflt) as -> by (apply nth_error_In, repeat_spec in Hq; exact Hq).
+  assert (nth i (repeat ([] : list frame) n) [] = []) as ->.
+  { destruct (nth_in_or_default i (repeat ([] : list frame) n) []) as [H|H]; auto.
+    apply repeat_spec in H. exact H. }
+  apply QInv_new.
+Qed.
+
+(** the ghost logs contain only frames of the history seen so far *)
+Definition LogsFrom (seen : list frame) (logs : list (list frame)) : Prop :=
+  forall lg g, In lg logs -> In g lg -> In g seen.
+
+Lemma In_set_nth {A} (l : list A) i a x : In x (set_nth l i a) -> x = a \/ In x l.
+Proof.
+  revert i; induction l as [|y l IH]; intros [|i]; cbn; auto.
+  - intros [->|H]; auto.
+  - intros [->|H]; auto. destruct (IH _ H); auto.
+Qed.
+
+Lemma step_logs_from seen logs ev r f :
+  LogsFrom seen logs -> LogsFrom (seen ++ [f]) (step_logs logs ev r f).
+Proof.
+  intros H lg g Hlg Hg. apply in_or_app. destruct ev as [[i inited]|]; cbn [step_logs] in Hlg.
+  - apply In_set_nth in Hlg. destruct Hlg as [->|Hlg]; [|left; eauto].
+    apply in_app_or in Hg. destruct Hg as [Hg|Hg].
+    + destruct (accepted r); [|destruct Hg]. destruct Hg as [<-|[]]. right; left; reflexivity.
+    + destruct inited; [destruct Hg|]. left.
+      destruct (nth_in_or_default i logs []) as [Hn|Hn]; [eauto|]. rewrite Hn in Hg. destruct Hg.
+  - left; eauto.
+Qed.
+
+Lemma grun_logs_from qs logs fs seen :
+  LogsFrom seen logs ->
+  forall k r ev logs', nth_error (grun qs logs fs) k = Some (r, ev, logs') ->
+  LogsFrom (seen ++ firstn (S k) fs) logs'.
+Proof.
+  revert qs logs seen; induction fs as [|f fs IH]; intros qs logs seen H k r ev logs' Hk.
+  - destruct k; discriminate.
+  - cbn [grun] in Hk. destruct (recv_frame qs f) as [[qs' r0] ev0].
+    pose proof (step_logs_from seen logs ev0 r0 f H) as H'.
+    destruct k as [|k]; cbn [nth_error] in Hk.
+    + inversion Hk; subst. cbn [firstn]. exact H'.
+    + specialize (IH _ _ _ H' k r ev logs' Hk).
+      cbn [firstn]. rewrite <- app_assoc in IH. exact IH.
+Qed.
+
+(** * state stays bounded *)
+Lemma mask_bounded q log : QAct q log -> (length (q_mask q) <= N.to_nat MAX_FRAMES)%nat.
+Proof.
+  intros A. rewrite <- (seq_length (N.to_nat MAX_FRAMES) 0), <- (map_length N.of_nat).
+  apply NoDup_incl_length; [apply (qa_nodup _ _ A)|].
+  intros x Hx. pose proof (qa_lt _ _ A x Hx). apply in_map_iff. exists (N.to_nat x).
+  split; [lia|apply in_seq; lia].
+Qed.
+
+Lemma recv_frame_length (qs : list queue) f qs' r ev : recv_frame qs f = (qs', r, ev) -> length qs' = length qs.
+Proof.
+  unfold recv_frame. destruct (_ && _); [intros E; inversion E; auto|].
+  destruct (select_queue qs f) as [[i b]|]; [|intros E; inversion E; auto].
+  destruct (nth_error qs i); [|intros E; inversion E; auto].
+  destruct (ingest_frame _ f). intros E; inversion E. apply set_nth_length.
+Qed.
+
+(** * one emission per slot epoch *)
+Lemma idle_slot_rejects (q : queue) f : q_idle q = true -> ingest_frame q f = (q, Err QueueNotAccepting).
+Proof. intros H. unfold ingest_frame. rewrite H. reflexivity. Qed.
+
+Lemma emission_closes_epoch q log f q' so p :
+  QInv q log -> h_so (f_hdr f) = q_so q -> ingest_frame q f = (q', Ok (Some (so, p))) ->
+  q_idle q' = true.
+Proof.
+  intros I Hso E. destruct (ingest_spec q log f q' _ I Hso E) as (_ & _ & _ & _ & H).
+  destruct (H so p eq_refl) as (_ & H2 & _). exact H2.
+Qed.
+
+(** * honest senders *)
+Definition HonestFrame (data : list B) (g : frame) : Prop :=
+  h_fo (f_hdr g) + flen g <= N.of_nat (length data) /\
+  (forall k, (k < length (f_frag g))%nat ->
+     nth_error (f_frag g) k = nth_error data (N.to_nat (h_fo (f_hdr g)) + k)) /\
+  (is_last (f_hdr g) = true -> h_fo (f_hdr g) + flen g = N.of_nat (length data)).
+
+Lemma honest_identical lg so data p :
+  Emitted lg so p -> (forall g, In g lg -> HonestFrame data g) -> p = data.
+Proof.
+  intros (_ & (lf & L1 & L2 & L3) & Hc) Hh.
+  destruct (Hh lf L1) as (_ & _ & Hl). specialize (Hl L2).
+  assert (Hlen : length p = length data) by lia.
+  apply nth_error_ext. intros i.
+  destruct (Nat.ltb_spec i (length p)) as [Hi|Hi].
+  - destruct (Hc (N.of_nat i)) as (g & G1 & G2 & G3 & G4); [lia|].
+    destruct (Hh g G1) as (H1 & H2 & _).
+    rewrite Nat2N.id in G4. rewrite G4, H2 by (unfold flen in *; lia). f_equal. lia.
+  - rewrite (proj2 (nth_error_None p i)), (proj2 (nth_error_None data i)); auto; lia.
+Qed.
+
+Lemma testbit_last : N.testbit 32768 LAST_FLAG_BIT = true /\ N.testbit 0 LAST_FLAG_BIT = false.
+Proof. split; reflexivity. Qed.
+
+Lemma send_frames_honest fuel so psz off (pre rest : list B) :
+  0 < psz -> N.of_nat (length pre) = off -> N.of_nat (length (pre ++ rest)) <= MAX_PACKET_SIZE ->
+  forall g, In g (send_frames fuel so psz off rest) ->
+    h_so (f_hdr g) = so /\ HonestFrame (pre ++ rest) g.
+Proof.
+  revert off pre rest; induction fuel as [|fuel IH]; intros off pre rest Hp Hoff Hmax g; cbn [send_frames]; [intros []|].
+  destruct consts as (_ & CP & _). rewrite app_length in Hmax.
+  set (n := N.to_nat psz).
+  intros [<-|Hg].
+  - cbn [f_hdr f_frag h_so h_fo h_flags]. split; [reflexivity|].
+    assert (Hm : off mod 65536 = off) by (apply N.mod_small; lia).
+    unfold HonestFrame, flen. cbn [f_hdr f_frag h_so h_fo h_flags]. rewrite Hm, firstn_length, app_length.
+    split; [lia|]. split.
+    + intros k Hk. rewrite nth_error_firstn by lia.
+      rewrite nth_error_app2 by lia. f_equal. lia.
+    + unfold is_last. cbn [h_flags]. destruct (Nat.leb_spec (length rest) n) as [Hle|Hgt].
+      * intros _. lia.
+      * intros H. destruct testbit_last as [_ H0]. congruence.
+  - destruct (Nat.leb_spec (length rest) n) as [Hle|Hgt]; [destruct Hg|].
+    replace (pre ++ rest) with ((pre ++ firstn n rest) ++ skipn n rest)
+      by (rewrite <- app_assoc, firstn_skipn; reflexivity).
+    apply (IH (off + psz) (pre ++ firstn n rest) (skipn n rest)); auto.
+    + rewrite app_length, firstn_length. lia.
+    + rewrite <- app_assoc, firstn_skipn, app_length. lia.
+Qed.
+
 End WithByte.
